@@ -519,6 +519,12 @@ fn state_sensitive_inputs(cfg: &RunCfg) -> Vec<(String, Vec<String>)> {
         "object-set-parameters".into(),
         vec!["Pr-Mod DEFINITIONS AUTOMATIC TAGS ::= BEGIN\nEXT ::= CLASS { &id INTEGER UNIQUE, &Type } WITH SYNTAX { ID &id TYPE &Type }\nPair { EXT : SetA, EXT : SetB } ::= SEQUENCE {\n  idA EXT.&id ({SetA}),\n  valA EXT.&Type ({SetA}{@idA}),\n  idB EXT.&id ({SetB}),\n  valB EXT.&Type ({SetB}{@idB})\n}\nImpl ::= Pair { {SetB}, {Other} }\nImpl2 ::= Pair { {Other}, {SetB} }\nSetB EXT ::= { { ID 1 TYPE INTEGER } }\nOther EXT ::= { { ID 2 TYPE BOOLEAN } | { ID 3 TYPE NULL } }\nEND\n".into()],
     ));
+    // names the compiler makes up: extension groups (of COMPONENTS OF only, with and without version numbers) and
+    // anonymous types at several depths
+    out.push((
+        "synthesised-names".into(),
+        vec!["Eg-Mod DEFINITIONS AUTOMATIC TAGS ::= BEGIN\nB ::= SEQUENCE { b BOOLEAN }\nC ::= SEQUENCE { c NULL }\nA ::= SEQUENCE { a INTEGER, ..., [[ COMPONENTS OF B ]], [[ 2: COMPONENTS OF C ]], [[ x INTEGER, y BOOLEAN ]] }\nA2 ::= SEQUENCE { a INTEGER, ..., [[ COMPONENTS OF C ]] }\nN ::= SEQUENCE { inner SEQUENCE { deep CHOICE { p NULL, q SEQUENCE OF SET { r ENUMERATED { e1, e2 } } } }, other SET OF SEQUENCE { z INTEGER (0..7) } }\nEND\n".into()],
+    ));
     let mut rng = Rng::new(cfg.seed ^ 0x57A7E);
     for k in 0..cfg.budget(6, 40) {
         let mut g = Gen { rng: &mut rng, info_objects: true };
